@@ -47,6 +47,8 @@ def gen_c08(tier, rng):
              ("c", "x"), ("c", "{"), ("c", "}"), ("d", "1.5"), ("d", "-0.25"), ("d", "100"), ("d", "0"),
              ("s", ""), ("s", "{}"), ("s", "a b"), ("s", "\xff\x80"), ("p", "{}"), ("p", ""), ("p", "lit"),
              # user types whose inserters leave sticky formatting state behind (hex/showbase; fixed/precision)
+             # partly filled fixed-size character buffers: the text up to the terminating NUL
+             ("a", "eth0"), ("a", ""), ("a", "{}"),
              ("h", "0xff"), ("h", "0x10"), ("f", "2.50"), ("f", "-0.13"), ("i", "255"), ("d", "0.125"),
              # doubles whose shortest text is not their 17-digit text (default precision 6 is part of the representation)
              ("d", "0.1"), ("d", "1e+06"), ("d", "0.333333"), ("d", "-2.7")]
@@ -59,7 +61,7 @@ def gen_c08(tier, rng):
             out.append(case("fmt", "str", api, hexs(fmt), argf([tok(t, x) for t, x in combo])))
             # (exception messages are built in ONE stream, `msg << a << b`, so there a sticky inserter legitimately
             # shows in what follows, as with any stream: those argument types stay out of the exception family)
-            if rng.chance(1, 3) and not any(t in "hf" for t, _ in combo):
+            if rng.chance(1, 3) and not any(t in "hfa" for t, _ in combo):
                 out.append(case("fmt", "exc", rng.choice(["ctor", "raise"]), argf([tok(t, x) for t, x in combo])))
     for n in (4, 5, 6):
         for _ in range(20):
